@@ -495,7 +495,7 @@ func c07Run(c *engine.Ctx) {
 		}
 		corpus = append(corpus, ref.NewCollection(geom.NoLayout, kids...))
 	}
-	lat := floatLattice(c.Thorough())
+	lat := floatLattice(true)
 	for i := 0; i+3 <= len(lat); i += 3 {
 		corpus = append(corpus, &ref.G{Kind: ref.Point, Layout: geom.XYZ, C0: ref.FromFloats(lat[i : i+3])})
 	}
